@@ -573,6 +573,11 @@ def late_adapt_products():
         "y*z": lambda y, z: (y * z).sum(), "z*y": lambda y, z: (z * y).sum(), "y@z": lambda y, z: y @ z,
         "y[0]*z[1]": lambda y, z: y[0] * z[1], "(2*y+1)*z": lambda y, z: ((2 * y + 1) * z).sum(),
         "held-slice*z": None,
+        # vector-valued products (one row per entry, not summed) in which only a LATER entry's decision becomes adaptive: the test that
+        # refuses the product has to look at the right rows of every row's coefficient block
+        "vector y*z, only y[1] adapted": (lambda y, z: y * z, lambda y, z: y[1].adapt(z[1])),
+        "vector y*z[::-1], only y[1] adapted to z[0]": (lambda y, z: y * z[::-1], lambda y, z: y[1].adapt(z[0])),
+        "vector z*y + y, only y[1] adapted to both": (lambda y, z: z * y + y, lambda y, z: y[1].adapt(z)),
     }
     for pn, pf in products.items():
         for un, uf in uses.items():
@@ -586,6 +591,10 @@ def late_adapt_products():
                         held = y[0]                     # slice taken before the declaration: its own flags are stale afterwards
                         y.adapt(z)
                         e = None
+                    elif isinstance(pf, tuple):
+                        held = None
+                        e = pf[0](y, z)
+                        pf[1](y, z)
                     else:
                         held = None
                         e = pf(y, z)
